@@ -22,8 +22,9 @@ type Frame struct {
 	act        int
 	keys       map[*types.Var]string
 	addrTaken  map[*types.Var]bool
-	beforeLoop map[*LoopSpec]*State // state just before each loop (for before(e) in its invariants)
-	scope      map[string]string    // name -> store key (most recent declaration), for spec expressions
+	aliasVars  map[*types.Var]string // locals initialised from a slice/map held elsewhere (writes through them are refused)
+	beforeLoop map[*LoopSpec]*State  // state just before each loop (for before(e) in its invariants)
+	scope      map[string]string     // name -> store key (most recent declaration), for spec expressions
 	returns    []*State
 	defers     []*ast.CallExpr
 	loops      []*loopCtx
@@ -523,6 +524,21 @@ func (x *Exec) assignStmt(fr *Frame, c *Ctx, s *ast.AssignStmt) {
 			}
 		}
 		for i, l := range s.Lhs {
+			// a local that starts as a copy of a slice / map held elsewhere (x := d.Field): the model gives slices and
+			// maps value semantics, so a later write through x would not reach the original - refuse instead of being wrong
+			if id, ok := l.(*ast.Ident); ok && i < len(s.Rhs) && len(s.Lhs) == len(s.Rhs) {
+				switch unparen(s.Rhs[i]).(type) {
+				case *ast.SelectorExpr, *ast.IndexExpr:
+					if k := vals[i].Kind; k == KSlice || k == KMap {
+						if obj, _ := fr.info.ObjectOf(id).(*types.Var); obj != nil {
+							if fr.aliasVars == nil {
+								fr.aliasVars = map[*types.Var]string{}
+							}
+							fr.aliasVars[obj] = exprText(s.Rhs[i])
+						}
+					}
+				}
+			}
 			if id, ok := l.(*ast.Ident); ok && s.Tok == token.DEFINE {
 				if id.Name == "_" {
 					continue
@@ -672,6 +688,13 @@ func (x *Exec) assign(c *Ctx, lhs ast.Expr, v Value) {
 			x.assign(c, l.X, nb)
 		}
 	case *ast.IndexExpr:
+		if id, ok := unparen(l.X).(*ast.Ident); ok && c.fr != nil {
+			if obj, _ := c.info.ObjectOf(id).(*types.Var); obj != nil {
+				if src, isAlias := c.fr.aliasVars[obj]; isAlias {
+					panic(engineErr("%s: write through %s, a local copy of the slice/map %s (aliasing of slices and maps is outside the model)", x.pos(l.Pos()), id.Name, src))
+				}
+			}
+		}
 		cur := c.eval(l.X)
 		idx := c.eval(l.Index)
 		switch cur.Kind {
